@@ -465,8 +465,39 @@ fn md5_feed_case<const CH: usize, const BITS: usize, const NS: usize, const NB: 
 //@ prop: C03
 //@ also: C14
 //@ drives: Context::new, Context::fill_interleaved, Context::fill_le_bytes, Context::md5_digest, Context::total_samples, Context::current_frame_number
-//@ bound: 2 channels x 2 inter-channel samples at 12 bits (2 bytes per sample: sign extension of negative samples into the second byte); every sample value of the width; the integer delivery is split into two fills
+//@ bound: 1 channel x 2 samples at 12 bits (2 bytes per sample: sign extension of negative samples into the second byte); every sample value of the width; the integer delivery is split into two fills
 //@ asserts: the padded message block that reaches the MD5 compression function is byte-identical for (1) integer fills, (2) one packed-byte fill and (3) Md5::digest of the reference serialisation (channel-interleaved little-endian signed integers of the byte-rounded width) - hence equal digests; sample and frame counters agree with the number of fills
+//@ stubs: md5::compress::soft::compress_block -> recorder (md-5 itself is trusted)
+//@ oracle: c03_oracle_streaminfo_truth
+#[kani::proof]
+#[kani::unwind(70)]
+#[kani::stub(md5::compress::soft::compress_block, md5_compress_stub)]
+fn c03_md5_input_bytes_12bit_mono() {
+    let c = md5_feed_case::<1, 12, 2, 4>();
+    kani::cover!(c);
+}
+
+//@ prop: C03
+//@ also: C14
+//@ drives: Context::new, Context::fill_interleaved, Context::fill_le_bytes, Context::md5_digest, Context::total_samples, Context::current_frame_number
+//@ bound: 2 channels x 1 inter-channel sample at 20 bits (3 bytes per sample); every sample value of the width
+//@ asserts: as c03_md5_input_bytes_12bit_mono
+//@ stubs: md5::compress::soft::compress_block -> recorder (md-5 itself is trusted)
+//@ oracle: c03_oracle_streaminfo_truth
+#[kani::proof]
+#[kani::unwind(70)]
+#[kani::stub(md5::compress::soft::compress_block, md5_compress_stub)]
+fn c03_md5_input_bytes_20bit_stereo() {
+    let c = md5_feed_case::<2, 20, 2, 6>();
+    kani::cover!(c);
+}
+
+//@ prop: C03
+//@ also: C14
+//@ tier: thorough
+//@ drives: Context::new, Context::fill_interleaved, Context::fill_le_bytes, Context::md5_digest, Context::total_samples, Context::current_frame_number
+//@ bound: 2 channels x 2 inter-channel samples at 12 bits; every sample value of the width; the integer delivery is split into two fills
+//@ asserts: as c03_md5_input_bytes_12bit_mono
 //@ stubs: md5::compress::soft::compress_block -> recorder (md-5 itself is trusted)
 //@ oracle: c03_oracle_streaminfo_truth
 #[kani::proof]
@@ -479,9 +510,10 @@ fn c03_md5_input_bytes_12bit_stereo() {
 
 //@ prop: C03
 //@ also: C14
+//@ tier: thorough
 //@ drives: Context::new, Context::fill_interleaved, Context::fill_le_bytes, Context::md5_digest, Context::total_samples, Context::current_frame_number
 //@ bound: 1 channel x 3 samples at 24 bits (3 bytes per sample); every sample value of the width; the integer delivery is split into two fills
-//@ asserts: the padded message block that reaches the MD5 compression function is byte-identical for (1) integer fills, (2) one packed-byte fill and (3) Md5::digest of the reference serialisation (channel-interleaved little-endian signed integers of the byte-rounded width) - hence equal digests; sample and frame counters agree with the number of fills
+//@ asserts: as c03_md5_input_bytes_12bit_mono
 //@ stubs: md5::compress::soft::compress_block -> recorder (md-5 itself is trusted)
 //@ oracle: c03_oracle_streaminfo_truth
 #[kani::proof]
@@ -549,12 +581,12 @@ fn c03_md5_empty_input() {
 //@ prop: C03
 //@ expect: fail
 //@ drives: (reachability witness) md5_feed_case
-//@ bound: as c03_md5_input_bytes_24bit_mono
+//@ bound: as c03_md5_input_bytes_12bit_mono
 //@ stubs: md5::compress::soft::compress_block -> recorder
 #[kani::proof]
 #[kani::unwind(70)]
 #[kani::stub(md5::compress::soft::compress_block, md5_compress_stub)]
 fn c03_vacuity_twin() {
-    let _ = md5_feed_case::<1, 24, 3, 9>();
+    let _ = md5_feed_case::<1, 12, 2, 4>();
     assert!(false);
 }
